@@ -2,7 +2,7 @@
    In all statements the external functions are universally quantified: hash (maphash of the query families under
    the seed of the current Clear epoch; ARBITRARY, collisions allowed), norm (NormalizeFamily), is_generic,
    subst (family substitution crible), script_lang (ScriptToLang), empty_fam. *)
-From TV Require Import Model.FontMap Spec.Resolve Proofs.FontMap Proofs.FontMapOrder Proofs.FontMapTotal.
+From TV Require Import Model.FontMap Spec.Resolve Proofs.FontMap Proofs.FontMapOrder Proofs.FontMapTotal Proofs.FontMapCache.
 From Coq Require Import Permutation.
 
 (* Cache transparency and priority order.  For every sequence of AddFace/AddFont, SetQuery, SetScript,
@@ -67,6 +67,35 @@ Proof.
 Qed.
 Print Assumptions stable_sort_unique_result.
 
+(* Cache transparency, stated without the specification.  Two operation sequences on new FontMaps that differ only
+   in their SetRuneCacheSize calls (how many, where, which sizes: not_cache_op filters them out) and in the hash
+   function of the cache keys (another seed, i.e. another Clear epoch; any collisions) answer every ResolveFace
+   call identically, whenever both run without panic. *)
+Theorem answers_independent_of_cache :
+  forall (hash hash' : Z -> list Z -> Z) (norm : Z -> Z) (is_generic : Z -> bool)
+         (subst : list Z -> Z -> list (Z * (Z * bool))) (script_lang : Z -> Z) (empty_fam : Z)
+         (ops ops' : list op) (fm fm' : fontmap) (ans ans' : list (option Z)),
+    filter not_cache_op ops = filter not_cache_op ops' ->
+    run hash norm is_generic subst script_lang empty_fam new_fontmap ops = Ok (fm, ans) ->
+    run hash' norm is_generic subst script_lang empty_fam new_fontmap ops' = Ok (fm', ans') ->
+    ans = ans'.
+Proof. exact answers_independent_of_cache_lemma. Qed.
+Print Assumptions answers_independent_of_cache.
+
+(* No lookup history: the answer of a ResolveFace call is the same after two histories that agree on their
+   configuring operations (AddFace/AddFont, SetQuery, SetScript: config_op), whatever ResolveFace and
+   SetRuneCacheSize calls were interleaved before it in either history and whatever the hash functions. *)
+Theorem last_answer_history_free :
+  forall (hash hash' : Z -> list Z -> Z) (norm : Z -> Z) (is_generic : Z -> bool)
+         (subst : list Z -> Z -> list (Z * (Z * bool))) (script_lang : Z -> Z) (empty_fam : Z)
+         (pre pre' : list op) (r : Z) (fm fm' : fontmap) (ans ans' : list (option Z)),
+    filter config_op pre = filter config_op pre' ->
+    run hash norm is_generic subst script_lang empty_fam new_fontmap (pre ++ [OpResolve r]) = Ok (fm, ans) ->
+    run hash' norm is_generic subst script_lang empty_fam new_fontmap (pre' ++ [OpResolve r]) = Ok (fm', ans') ->
+    exists x, last ans None = x /\ last ans' None = x /\ ans <> [] /\ ans' <> [].
+Proof. exact last_answer_history_free_lemma. Qed.
+Print Assumptions last_answer_history_free.
+
 (* ---- non-vacuity ---- *)
 Definition ex_face (face loc fam : Z) (runes scripts : list Z) : added :=
   mkAdded face loc fam (mkAspect 0 0 0) runes scripts false true.
@@ -102,3 +131,18 @@ Example less_example :
   sf_less 10 (mkScored 0 3 true fp) (mkScored 1 max_int false fp) = true /\
   stable_sort (sf_less 10) [mkScored 1 max_int false fp; mkScored 0 3 true fp] = [mkScored 0 3 true fp; mkScored 1 max_int false fp].
 Proof. split; reflexivity. Qed.
+
+(* the two independence theorems have satisfiable premises with different cache operations, different hashes and
+   different lookup histories: ex_ops against the same configuration with no cache (size 0 set late), a hash that
+   never collides on these keys, and a single lookup *)
+Definition ex_ops' : list op :=
+  [OpAdd [ex_face 0 0 5 [97] [10]]; OpAdd [ex_face 1 1 6 [97; 98] [10; 20]];
+   OpSetQuery (mkQuery [6] (mkAspect 2 700 8)); OpResolve 97; OpCacheSize 0; OpResolve 98; OpSetScript 20; OpResolve 97;
+   OpSetQuery (mkQuery [7] (mkAspect 0 0 0)); OpCacheSize 3; OpResolve 98; OpResolve 99; OpResolve 98].
+Example independence_example :
+  filter not_cache_op ex_ops = filter not_cache_op ex_ops' /\
+  (exists fm, run (fun s l => s + fold_left (fun a x => 31 * a + x) l 7) (fun z => z) (fun _ => false) (fun _ _ => [])
+                  (fun _ => 0) 0 new_fontmap ex_ops' = Ok (fm, [Some 1; Some 1; Some 1; Some 1; Some 0; Some 1])) /\
+  filter config_op (removelast ex_ops) = filter config_op (removelast (removelast (removelast ex_ops'))) /\
+  ex_ops = removelast ex_ops ++ [OpResolve 98].
+Proof. split; [reflexivity|]. split; [eexists; vm_compute; reflexivity|]. split; reflexivity. Qed.
